@@ -65,15 +65,23 @@ func (r *schedReader) Read(p []byte) (int, error) {
 }
 
 func frameAll(rd io.Reader) (frames [][]byte, term string) {
+	frames, _, term = frameAllHeld(rd)
+	return
+}
+
+// frameAllHeld also keeps every frame exactly as handed out (no copy), the way a consumer that holds
+// on to the buffers would, so that a frame changing under the consumer's feet becomes visible.
+func frameAllHeld(rd io.Reader) (frames, held [][]byte, term string) {
 	p := quickfix.NewVerifParser(rd)
 	for i := 0; i < 100000; i++ {
 		f, err := p.ReadMessage()
 		if err != nil {
-			return frames, err.Error()
+			return frames, held, err.Error()
 		}
 		frames = append(frames, append([]byte(nil), f...))
+		held = append(held, f)
 	}
-	return frames, "harness: too many frames"
+	return frames, held, "harness: too many frames"
 }
 
 func c12Message(env *Env, seq int) []byte {
@@ -234,7 +242,13 @@ func runC12(env *Env, tier string) {
 		if viaBufio {
 			rd = bufio.NewReader(r)
 		}
-		got, term := frameAll(rd)
+		got, held, term := frameAllHeld(rd)
+		for i := range got {
+			if !bytes.Equal(got[i], held[i]) {
+				env.Violate("C12/frame-changes-after-hand-over", "frame %d as handed out changed while later frames were read (schedule chunks=%v): now %q, was %q", i, r.chunks, clip(held[i]), clip(got[i]))
+				return
+			}
+		}
 		desc := fmt.Sprintf("chunks=%v errWithLast=%v bufio=%v", r.chunks, r.withLast, viaBufio)
 		env.Note("stream %d bytes, %d messages, damaged=%v, schedule %s -> %d frames, %s", len(stream), len(msgs), damaged, desc, len(got), term)
 		if len(got) != len(ref) {
@@ -279,12 +293,25 @@ func runC12Engine(env *Env) {
 	s := StartSut(env, c)
 	p := s.P
 	a := NewAdv(s, 30, AdvOpts{HonestLogon: true})
-	if !a.ensureSession() {
-		env.Fatalf("logon failed")
-	}
-	inBefore := len(s.E.LF.In)
 	var sent [][]byte
 	var stream []byte
+	inBefore := 0
+	if !c.Initiator && ch.Chance("pipelined", 1, 2) {
+		// the counterparty pipelines its first messages right behind the Logon, so that they can share
+		// a read with it (first-message hand-over in the acceptor)
+		if !p.Connect(time.Second) {
+			env.Fatalf("connect failed")
+		}
+		lg, _ := p.Build("A", p.LogonBody(30, false), MsgOpt{})
+		sent = append(sent, lg)
+		stream = append(stream, lg...)
+		env.Stat("probe_pipelined_behind_logon")
+	} else {
+		if !a.ensureSession() {
+			env.Fatalf("logon failed")
+		}
+		inBefore = len(s.E.LF.In)
+	}
 	n := 1 + ch.Choose("nmsgs", 8)
 	for i := 0; i < n; i++ {
 		stream = append(stream, c12Separator(env)...)
